@@ -27,7 +27,9 @@ MANIFEST = dict(
     text="proof: Thm/C17.lean proves for every arena (at most 16 buffers, each below 2 GiB), every loader configuration and EVERY cut point before the end of "
          "the buffer bodies that the loader rejects the prefix (prefix_header: INVALID_FILE; prefix_table, prefix_bodies: CORRUPT_FILE), and what happens to a "
          "trailing partial relocation entry (applyRelocs_partial). For cut points inside the relocation section the property is FALSE for this file format "
-         "(no count, no terminator): reloc_cut_accepted / reloc_cut_accepted_witness; known finding F9. SINGLE-FIELD CORRUPTIONS, for every saved image of a "
+         "(no count, no terminator): reloc_cut_accepted / reloc_cut_accepted_witness; known finding F9 — and exactly there: prefix_in_entry (a cut inside an "
+         "entry is CORRUPT_FILE for the fully checked loader) and prefix_accepted_iff classify EVERY proper prefix length: accepted iff at or after the end "
+         "of the bodies on an entry boundary. SINGLE-FIELD CORRUPTIONS, for every saved image of a "
          "well-formed arena and ANY other value of the field's type: corrupt_magic (each of the 4 bytes, any byte: INVALID_FILE), corrupt_version (any byte, "
          "older or newer: UNSUPPORTED_FILE_VERSION), corrupt_num_buffers (any byte: INVALID_FILE above 16, else CORRUPT_FILE), corrupt_offset (any entry, any "
          "64-bit value: CORRUPT_FILE), corrupt_size_not_last (any entry but the last, any 32-bit value: CORRUPT_FILE) — the last three for a loader with the "
